@@ -165,6 +165,9 @@ def replay_findings(ctx):
 
 
 def run(ctx):
+    au = W.ENTRIES[4]
+    ctx.notes.append(f"WindowedBinaryAUROC.compute(): model {au.model!r} selected by the two D6 witnesses "
+                     f"(variant {au.variant}: code = current heuristic + squeeze, cfix = fixes/window-auroc-compute.patch applied)")
     step_stream(ctx)
     streams.hist_corr(ctx, ents=W.ENTRIES, mix=MIX, name="history-correspondence (update-heavy)",
                       nhist=ctx.n(24, 200), nops=(6, 12, 24))
